@@ -76,6 +76,14 @@ var c11units = []struct {
 	w    time.Duration
 }{{"min", time.Minute}, {"min", time.Minute}, {"min", time.Minute}, {"sec", time.Second}, {"hour", time.Hour}, {"day", 24 * time.Hour}}
 
+// c11aliases: the other names each window unit is accepted under
+var c11aliases = map[string][]string{
+	"sec":  {"second", "s"},
+	"min":  {"minute", "m"},
+	"hour": {"hr", "h"},
+	"day":  {"d"},
+}
+
 func c11build(s *sim.Sim, p *sim.Params) (*c11sys, func() *c11sys) {
 	y := &c11sys{}
 	y.n = []int{1, 2, 3, 5, 10, 30, 60, 200, 90, 119, 2000}[s.Choose(sim.SWork, 11)]
@@ -159,17 +167,24 @@ func c11build(s *sim.Sim, p *sim.Params) (*c11sys, func() *c11sys) {
 	mkSrc := func(decl string) string {
 		return fmt.Sprintf("@ GET /limited {\n  + ratelimit(%s)\n  > {marker: \"%s\"}\n}\n\n@ GET /free {\n  > {marker: \"free\"}\n}\n\n@ POST /limited2 {\n  + ratelimit(%s)\n  > {marker: \"%s\"}\n}\n", decl, c11Marker, decl, c11Marker)
 	}
-	capUnit := strings.ToUpper(u.name[:1]) + u.name[1:]
-	decl := fmt.Sprintf("%d/%s", y.n, u.name)
+	// ... and under any of the names the unit goes by (s, second, hr, h, d, minute, m)
+	spelled := u.name
+	if s.Choose(sim.SWork, 3) == 0 {
+		al := c11aliases[u.name]
+		spelled = al[s.Choose(sim.SWork, len(al))]
+		s.Probe("unit-alias-spelled")
+	}
+	capUnit := strings.ToUpper(spelled[:1]) + spelled[1:]
+	decl := fmt.Sprintf("%d/%s", y.n, spelled)
 	switch s.Choose(sim.SWork, 8) {
 	case 1:
-		decl = fmt.Sprintf("\"%d/%s\"", y.n, u.name)
+		decl = fmt.Sprintf("\"%d/%s\"", y.n, spelled)
 	case 2:
 		decl = fmt.Sprintf("\"%d/%s\"", y.n, capUnit)
 	case 3:
-		decl = fmt.Sprintf("\"%d/%s\"", y.n, strings.ToUpper(u.name))
+		decl = fmt.Sprintf("\"%d/%s\"", y.n, strings.ToUpper(spelled))
 	case 4:
-		decl = fmt.Sprintf("\"%d/ %s \"", y.n, u.name)
+		decl = fmt.Sprintf("\"%d/ %s \"", y.n, spelled)
 	case 5:
 		decl = fmt.Sprintf("%d/%s", y.n, capUnit)
 	}
@@ -338,10 +353,21 @@ func c11Run(s *sim.Sim, p *sim.Params) {
 	}
 	plans := make([]clientPlan, nclients)
 	v6 := s.Choose(sim.SWork, 4) == 0 // IPv6 peers whose addresses share their leading groups
+	// peers on this host (a development machine, a sidecar): loopback addresses are peers like any other
+	local := !y.direct && s.Choose(sim.SWork, 4) == 0
+	if local {
+		s.Probe("loopback-peers-run")
+	}
 	for i := range plans {
 		plans[i].host = fmt.Sprintf("10.0.0.%d", i+1)
 		if v6 {
 			plans[i].host = fmt.Sprintf("[2001:db8::%x]", i+1)
+		}
+		if local {
+			plans[i].host = fmt.Sprintf("127.0.0.%d", i+1)
+			if v6 && i == 0 {
+				plans[i].host = "[::1]"
+			}
 		}
 		if y.direct && y.trust && len(y.trusted) > 0 && s.Choose(sim.SWork, 2) == 0 {
 			plans[i].host = "10.9.9.9" // arrives through the trusted proxy
